@@ -258,6 +258,10 @@ def work_items(kind, items, acc):
             check_itp_faults(seq, acc)
         elif kind == 'map':
             check_map(seq, acc, sample=(n % 7 == 0))
+        elif kind == 'mapping':
+            check_mapping(seq, acc, sample=(n % 13 == 0))
+        elif kind == 'mapping-fault':
+            check_mapping_faults(seq, acc)
 
 
 def run_layers(ctx):
@@ -277,6 +281,15 @@ def run_layers(ctx):
     for part in common.pmap(c13.work, [('map', mseqs)]):
         acc += part
     ctx.layer('map-files', acc)
+    pseqs = [s for n in range(1, max_len + 1) for s in itertools.product(MAPPING_CHUNKS, repeat=n)]
+    acc = Acc()
+    for part in common.pmap(c13.work, [('mapping', chunk) for chunk in common.chunked(pseqs, 8)]):
+        acc += part
+    ctx.layer('mapping-sequences', acc)
+    acc = Acc()
+    for part in common.pmap(c13.work, [('mapping-fault', [s]) for s in pseqs if len(s) <= (2 if ctx.quick else 3)]):
+        acc += part
+    ctx.layer('mapping-faults', acc)
 
 
 def replay(case):
@@ -287,6 +300,19 @@ def replay(case):
         check_itp(seq, acc)
     elif layer == 'map':
         check_map(seq, acc)
+    elif layer == 'mapping':
+        check_mapping(seq, acc)
+    elif layer == 'mapping-fault':
+        lines = ['; new style mapping']
+        for i, kind in enumerate(seq):
+            lines.extend(MAPPING_CHUNKS[kind](i)[0])
+        for kind, idx, mutated in mapping_faults(lines):
+            if kind == case['fault'] and idx == case['line']:
+                try:
+                    load_mapping(mutated)
+                    acc.violation('mapping-fault-accepted:%s' % kind, 'malformed .mapping loaded: %s at line %d' % (kind, idx + 1), case)
+                except Exception:   # pylint: disable=broad-except
+                    pass
     elif layer == 'itp-fault':
         lines, _ = itp_file(seq)
         for kind, idx, mutated in itp_faults(lines):
@@ -297,3 +323,175 @@ def replay(case):
                 except Exception:   # pylint: disable=broad-except
                     pass
     return [(s, d) for s, d, _ in acc.violations]
+
+
+# ----------------------------------------------------------------------------- .mapping (new style mapping files)
+
+def mapping_forcefields():
+    from vermouth.forcefield import ForceField
+    from vermouth.molecule import Block, Modification
+
+    def make(name, blocks, mods):
+        ff = ForceField(name=name)
+        for bname, (atoms, edges) in blocks.items():
+            block = Block(force_field=ff)
+            block.name = bname
+            for atom in atoms:
+                block.add_atom({'atomname': atom, 'resname': bname, 'resid': 1})
+            block.add_edges_from(edges)
+            ff.blocks[bname] = block
+        for mname, (atoms, edges) in mods.items():
+            mod = Modification(force_field=ff)
+            mod.name = mname
+            for atom, ptm in atoms:
+                mod.add_node(atom, atomname=atom, PTM_atom=ptm)
+            mod.add_edges_from(edges)
+            ff.modifications[mname] = mod
+        return ff
+    return {'fa': make('fa', {'X1': (['A', 'B', 'C', 'D'], [('A', 'B'), ('B', 'C'), ('C', 'D')]), 'X2': (['E', 'F'], [('E', 'F')])},
+                       {'MA': ([('C', False), ('OX', True)], [('C', 'OX')])}),
+            'fb': make('fb', {'X1': (['P', 'Q'], [('P', 'Q')]), 'X2': (['R'], [])}, {'MB': ([('Q', False)], [])})}
+
+
+def mp_block_short(i):
+    lines = ['[ block ]', '[ from ]', 'fa', '[ to ]', 'fb', '[ from blocks ]', 'X1', '[ to blocks ]', 'X1', '[ mapping ]',
+             'A P', 'B P 2 ; weight', 'B Q', 'C Q 0', 'D Q', '[ reference atoms ]', 'P A']
+    decl = {'type': 'block', 'names': ['X1'], 'ff_from': 'fa', 'ff_to': 'fb',
+            'from_nodes': [['X1', 1, 'A'], ['X1', 1, 'B'], ['X1', 1, 'C'], ['X1', 1, 'D']],
+            'from_edges': [['A1', 'B1'], ['B1', 'C1'], ['C1', 'D1']],
+            'to_nodes': [['X1', 1, 'P'], ['X1', 1, 'Q']], 'to_edges': [['P1', 'Q1']],
+            'mapping': {'A1': {'P1': 1}, 'B1': {'P1': 2, 'Q1': 1}, 'C1': {'Q1': 0}, 'D1': {'Q1': 1}},
+            'references': {'P1': 'A1'}}
+    return lines, decl
+
+
+def mp_block_two_residues(i):
+    lines = ['[ block ]', '[ from ]', 'fa', '[ to ]', 'fb', '[ from blocks ]', 'X1#1 X2#2', '[ to blocks ]', 'X1',
+             '[ from edges ]', 'X1#1:D X2#2:E', '[ mapping ]', 'X1#1:A P', 'B P', 'C Q', 'D Q', 'X2#2:E Q', 'F Q']
+    decl = {'type': 'block', 'names': ['X1', 'X2'], 'ff_from': 'fa', 'ff_to': 'fb',
+            'from_nodes': [['X1', 1, 'A'], ['X1', 1, 'B'], ['X1', 1, 'C'], ['X1', 1, 'D'], ['X2', 2, 'E'], ['X2', 2, 'F']],
+            'from_edges': [['A1', 'B1'], ['B1', 'C1'], ['C1', 'D1'], ['D1', 'E2'], ['E2', 'F2']],
+            'to_nodes': [['X1', 1, 'P'], ['X1', 1, 'Q']], 'to_edges': [['P1', 'Q1']],
+            'mapping': {'A1': {'P1': 1}, 'B1': {'P1': 1}, 'C1': {'Q1': 1}, 'D1': {'Q1': 1}, 'E2': {'Q1': 1}, 'F2': {'Q1': 1}},
+            'references': {}}
+    return lines, decl
+
+
+def mp_block_longhand(i):
+    lines = ['[ block ]', '[ from ]', 'fa', '[ to ]', 'fb', '[ from blocks ]', 'first {"resname": "X2", "resid": 1}',
+             '[ to blocks ]', 'target {"resname": "X2", "resid": 1}', '[ mapping ]', 'first:E target:R', 'F R 3']
+    decl = {'type': 'block', 'names': ['X2'], 'ff_from': 'fa', 'ff_to': 'fb',
+            'from_nodes': [['X2', 1, 'E'], ['X2', 1, 'F']], 'from_edges': [['E1', 'F1']],
+            'to_nodes': [['X2', 1, 'R']], 'to_edges': [],
+            'mapping': {'E1': {'R1': 1}, 'F1': {'R1': 3}}, 'references': {}}
+    return lines, decl
+
+
+def mp_modification(i):
+    lines = ['[ modification ]', '[ from ]', 'fa', '[ to ]', 'fb', '[ from blocks ]', 'MA', '[ to blocks ]', 'MB',
+             '[ from nodes ]', 'B', '[ from edges ]', 'B C', '[ mapping ]', 'C Q', 'OX Q', 'B Q 0']
+    decl = {'type': 'modification', 'names': ['MA'], 'ff_from': 'fa', 'ff_to': 'fb',
+            'from_nodes': [[None, 1, 'B'], [None, 1, 'C'], [None, 1, 'OX']], 'from_edges': [['B1', 'C1'], ['C1', 'OX1']],
+            'to_nodes': [[None, 1, 'Q']], 'to_edges': [],
+            'mapping': {'C1': {'Q1': 1}, 'OX1': {'Q1': 1}, 'B1': {'Q1': 0}}, 'references': {}}
+    return lines, decl
+
+
+MAPPING_CHUNKS = {'short': mp_block_short, 'two-res': mp_block_two_residues, 'long': mp_block_longhand, 'mod': mp_modification}
+
+
+def canon_mapping(mapping):
+    def tag(graph, key):
+        node = graph.nodes[key]
+        return '%s%s' % (node.get('atomname'), node.get('resid'))
+    bf, bt = mapping.block_from, mapping.block_to
+    return {
+        'type': mapping.type, 'names': list(mapping.names), 'ff_from': mapping.ff_from, 'ff_to': mapping.ff_to,
+        'from_nodes': sorted([bf.nodes[k].get('resname'), bf.nodes[k].get('resid'), bf.nodes[k].get('atomname')] for k in bf.nodes),
+        'from_edges': sorted(sorted((tag(bf, a), tag(bf, b))) for a, b in bf.edges),
+        'to_nodes': sorted([bt.nodes[k].get('resname'), bt.nodes[k].get('resid'), bt.nodes[k].get('atomname')] for k in bt.nodes),
+        'to_edges': sorted(sorted((tag(bt, a), tag(bt, b))) for a, b in bt.edges),
+        'mapping': {tag(bf, a): {tag(bt, b): w for b, w in targets.items()} for a, targets in mapping.mapping.items()},
+        'references': {tag(bt, t): tag(bf, f) for t, f in mapping.references.items()},
+    }
+
+
+def sort_decl(decl):
+    out = dict(decl)
+    out['from_nodes'] = sorted(decl['from_nodes'], key=repr)
+    out['to_nodes'] = sorted(decl['to_nodes'], key=repr)
+    return out
+
+
+def load_mapping(lines):
+    from vermouth.map_parser import MappingDirector
+    director = MappingDirector(mapping_forcefields())
+    return [canon_mapping(m) for m in director.parse(iter(lines))]
+
+
+def check_mapping(seq, acc, sample=False):
+    lines, declared = ['; new style mapping'], []
+    for i, kind in enumerate(seq):
+        chunk, decl = MAPPING_CHUNKS[kind](i)
+        lines.extend(chunk)
+        declared.append(sort_decl(decl))
+    case = {'layer': 'mapping', 'chunks': list(seq)}
+    try:
+        got = load_mapping(lines)
+    except Exception as err:   # pylint: disable=broad-except
+        acc.case(outcome='err')
+        acc.violation('mapping:wellformed-rejected', 'well-formed .mapping rejected: %r' % (err,), case)
+        return
+    for item in got:
+        item['from_nodes'] = sorted(item['from_nodes'], key=repr)
+        item['to_nodes'] = sorted(item['to_nodes'], key=repr)
+    acc.case(nontrivial=len(seq) >= 2, outcome=('mapping', [g['names'] for g in got]), sample=dict(case, file=lines) if sample else None)
+    if [(g['type'], g['names']) for g in got] != [(d['type'], d['names']) for d in declared]:
+        acc.violation('mapping:members', 'mappings loaded %r, declared %r' % ([(g['type'], g['names']) for g in got],
+                                                                               [(d['type'], d['names']) for d in declared]), case)
+        return
+    diff = c13.first_difference(got, declared)
+    if diff:
+        sub = 'weights' if '.mapping' in diff else ('references' if '.references' in diff else 'content')
+        acc.violation('mapping:%s' % sub, 'loaded mapping differs from the declaration at %s' % diff, case)
+
+
+def mapping_faults(lines):
+    section = None
+    for idx, line in enumerate(lines):
+        stripped = line.split(';')[0].strip()
+        if not stripped:
+            continue
+        if stripped.startswith('['):
+            section = stripped.strip('[ ]')
+            yield 'unknown-section', idx, lines[:idx] + ['[ nosuchsection ]', 'foo bar'] + lines[idx:]
+            continue
+        tokens = stripped.split()
+        if section == 'mapping':
+            yield 'undefined-atom(from)', idx, lines[:idx] + ['ZZ ' + ' '.join(tokens[1:])] + lines[idx + 1:]
+            yield 'undefined-atom(to)', idx, lines[:idx] + [tokens[0] + ' ZZ'] + lines[idx + 1:]
+        if section in ('from blocks', 'to blocks') and '{' not in stripped:
+            yield 'unknown-block', idx, lines[:idx] + ['NOPE'] + lines[idx + 1:]
+        if section == 'from edges':
+            yield 'undefined-atom(edge)', idx, lines[:idx] + [tokens[0] + ' ZZ'] + lines[idx + 1:]
+        if section == 'reference atoms':
+            yield 'undefined-atom(reference)', idx, lines[:idx] + [tokens[0] + ' ZZ'] + lines[idx + 1:]
+    yield 'old-style-section', 0, ['[ molecule ]', 'X1'] + lines
+
+
+def check_mapping_faults(seq, acc):
+    lines = ['; new style mapping']
+    for i, kind in enumerate(seq):
+        lines.extend(MAPPING_CHUNKS[kind](i)[0])
+    for kind, idx, mutated in mapping_faults(lines):
+        case = {'layer': 'mapping-fault', 'chunks': list(seq), 'fault': kind, 'line': idx}
+        try:
+            load_mapping(mutated)
+            outcome = 'loaded'
+        except Exception:   # pylint: disable=broad-except
+            outcome = 'rejected'
+        acc.case(nontrivial=True, outcome=('mfault', kind, outcome),
+                 sample=dict(case, mutated_line=mutated[idx]) if acc.states % 41 == 0 else None)
+        if outcome == 'loaded':
+            acc.violation('mapping-fault-accepted:%s' % kind, 'malformed .mapping loaded without error: %s at line %d (%r)' % (
+                kind, idx + 1, mutated[idx:idx + 2]), case)
